@@ -64,8 +64,30 @@ def verify_prepend_summary(ctx, prog, rule="SUM.prepend"):
         raise AnalysisBroken("path_prepend_cwd has no exits")
 
 
+def reap_target_rule(ctx, prog, rule="SUM.reap"):
+    """every waitpid / kill on the start path targets the pid that fork() returned to this very call - never 0, -1 or another
+    number (which would wait for, reap or signal some other child of the process, possibly another handle's)"""
+    n = 0
+    for tag, res in (("process_fork", fork_run(ctx, prog)), ("process_start", start_run(ctx, prog)[0])):
+        seen = set()
+        for e in res.events:
+            if e[0] not in ("waitpid", "kill"):
+                continue
+            pidv = e[3][0]
+            key = (e[0], site_of(e[1], e[2]), show(pidv))
+            if key in seen:
+                continue
+            seen.add(key)
+            n += 1
+            ok = bool(pidv) and all(isinstance(a, tuple) and a[0] == "pid" for a in pidv)
+            ctx.ob(rule, "%s [%s]" % (site_of(e[1], e[2]), tag), "the %s targets the child forked by this call (by its pid) and nothing else" %
+                   ("reap" if e[0] == "waitpid" else "signal"), ok, {"pid_argument": show(pidv)}, nontrivial=True)
+    return n
+
+
 def verify_start_summary(ctx, prog, rule="SUM.start"):
     verify_prepend_summary(ctx, prog)
+    reap_target_rule(ctx, prog)
     res, F, I, pcell = start_run(ctx, prog)
     classes = set()
     for st, rv in res.exits:
